@@ -108,12 +108,14 @@ Definition dec_sj (j : json) (ev : json) : sj_input :=
      sj_fields := dec_fields (gj "fields" j);
      sj_req_room := gs "req_room" j; sj_req_event_id := gs "req_event_id" j;
      sj_origin := gs "origin" j; sj_local_name := gs "local" j; sj_key_id := gs "key_id" j;
-     sj_mapping_ok := gb "mapping_ok" j; sj_mapping_sig_ok := gb "mapping_sig_ok" j;
+     sj_mapping_ok := gb "mapping_ok" j; sj_mapping_key_ok := gb "mapping_key_ok" j;
+     sj_mapping_sig_ok := gb "mapping_sig_ok" j;
      sj_store_ok := gb "store_ok" j;
      sj_sender := dec_sender "sender_q" j; sj_redact_ok := gb "redact_ok" j;
      sj_verify := dec_verify "verify" j;
      sj_membership := gerr_str "member_q" j;
-     sj_authvia_domain := gerr_str "via_domain" j |}.
+     sj_authvia_domain := gerr_str "via_domain" j;
+     sj_joiner_entitled := gb "joiner_entitled" j |}.
 
 Definition dec_iv (j : json) (ev : json) : inv_input :=
   {| iv_version := gs "version" j; iv_event := ev; iv_fields := dec_fields (gj "fields" j);
@@ -129,7 +131,7 @@ Definition dec_iv (j : json) (ev : json) : inv_input :=
 
 Definition dec_auth_event (j : json) : pj_auth_event :=
   {| pa_type := gs "type" j; pa_state_key := gos "state_key" j; pa_content_ok := gb "content_ok" j;
-     pa_room_version := gs "room_version" j |}.
+     pa_room_version := gs "room_version" j; pa_room_ok := gb "room_ok" j |}.
 
 Definition dec_pj (j : json) : pj_input :=
   {| pj_user_nil := gb "user_nil" j; pj_room_nil := gb "room_nil" j; pj_keyring_nil := gb "keyring_nil" j;
@@ -143,7 +145,8 @@ Definition dec_pj (j : json) : pj_input :=
                   | Some (JObj m) =>
                       let r := JObj m in
                       Some {| pr_parse_ok := gb "parse_ok" r; pr_membership := gerr_str "membership" r;
-                              pr_room_id := gs "room_id" r; pr_state_key := gos "state_key" r |}
+                              pr_room_id := gs "room_id" r; pr_state_key := gos "state_key" r;
+                              pr_same_event := gb "same_event" r |}
                   | _ => None
                   end;
      pj_auth_events := map dec_auth_event (gl "auth_events" j);
@@ -314,12 +317,28 @@ Definition prop_make_leave (args : list bytes) : bytes :=
   end.
 Definition prop_send_join (args : list bytes) : bytes :=
   match args with
-  | [_; cfg; evt; obs] => with_cfg_event [cfg; cfg; evt] (fun j e => oracle (send_join_admissible (dec_sj j e)) obs)
+  | [_; cfg; evt; obs] =>
+      with_cfg_event [cfg; cfg; evt] (fun j e =>
+        let i := dec_sj j e in
+        if bytes_eqb (first_line obs) (bs "ok") then
+          if negb (send_join_admissible i) then bs "FAIL accepted although the request is not admissible"
+          else if negb (send_join_attestation_justified i) then
+            bs "FAIL-F92 counter-signed a restricted join whose joiner satisfies no allow condition"
+          else bs "ok"
+        else bs "ok")
   | _ => bs "badargs"
   end.
+Fixpoint contains_bytes (needle s : bytes) : bool :=
+  is_prefix needle s || match s with [] => false | _ :: s' => contains_bytes needle s' end.
+
 Definition prop_invite (args : list bytes) : bytes :=
   match args with
-  | [_; cfg; evt; obs] => with_cfg_event [cfg; cfg; evt] (fun j e => oracle (invite_admissible (dec_iv j e)) obs)
+  | [_; cfg; evt; obs] =>
+      with_cfg_event [cfg; cfg; evt] (fun j e =>
+        (* a refused invite must not leave the local signature on the event that was handed in *)
+        if contains_bytes (bs "INPUT-EVENT-COUNTER-SIGNED-ALTHOUGH-REFUSED") obs then
+          bs "FAIL the refused invite carries the local counter-signature afterwards"
+        else oracle (invite_admissible (dec_iv j e)) obs)
   | _ => bs "badargs"
   end.
 Definition prop_perform_join (args : list bytes) : bytes :=
@@ -331,8 +350,11 @@ Definition prop_perform_join (args : list bytes) : bytes :=
         if is_prefix (bs "joined") obs then
           if is_prefix (bs "joined remote_event_used=") (first_line obs) &&
              (N.of_nat (length (first_line obs)) =? 26) then
-            if perform_join_admissible (dec_pj j) used then bs "ok"
-            else bs "FAIL joined although the request is not admissible for the join event handed back"
+            if negb (perform_join_admissible (dec_pj j) used) then
+              bs "FAIL joined although the request is not admissible for the join event handed back"
+            else if negb (perform_join_returns_own_event (dec_pj j) used) then
+              bs "FAIL-F87 the join event handed back is the remote's, and not the event that was sent"
+            else bs "ok"
           else bs "FAIL joined with something that is not a join of the user in the room"
         else bs "ok")
   | _ => bs "badargs"
@@ -372,7 +394,13 @@ Definition dec_pi (j : json) : pi_input :=
      pi_needed := match jget (bs "needed") j with Some (JArr l) => Some (strs l) | _ => None end;
      pi_latest_q := match jget (bs "latest") j with Some (JObj m) => Some (dec_latest (JObj m)) | _ => None end;
      pi_build_ok := gb "build_ok" j; pi_provider_ok := gb "provider_ok" j;
-     pi_allowed_ok := gb "allowed_ok" j; pi_send_ok := gb "send_ok" j |}.
+     pi_allowed_ok := gb "allowed_ok" j;
+     pi_send := let a := gs "send" j in
+                if bytes_eqb a (bs "err") then PSErr
+                else if bytes_eqb a (bs "nil") then PSNil
+                else if bytes_eqb a (bs "same_signed") then PSSame true
+                else if bytes_eqb a (bs "same_unsigned") then PSSame false
+                else PSOther |}.
 
 Definition print_pi (r : pi_result) : bytes :=
   join_bytes nl ([outcome_name (pir_out r); join_bytes semi (pir_log r)] ++
